@@ -4,7 +4,7 @@ import LexVerif.Proof.ParseNumberC11SepPrefix
 
 `sepCfg_of`: every field of `SepCfg` from one-byte facts about the separator (`isSep x ↔ x = digit_separator`), plus the
 general fact that a byte the skip iterators call a digit (`is_digit`, mantissa radix) is a digit of every radix
-`≥ mantissa_radix` (`isDigit_charToDigit`) — so the exact exclusion of the open defect is
+`≥ mantissa_radix` (`isDigit_charToDigit`) — so the exact exclusion of the open defect (`ExpRadixOK`, `expRadixOK_of`) is
 `exponent predicate ∈ {i, il, ic, ilc} → mantissa_radix ≤ exponent_radix`.
 `sepCfg_of_valid`: the one-byte facts follow from `format.is_valid()`, valid `Options` and
 `is_valid_options_punctuation`, except the three things the validation does not look at: ASCII case folding of the
@@ -69,12 +69,16 @@ theorem isSep_eq (c : Cfg) (x : Nat) (h : c.isSep x = true) : x = c.digitSeparat
   simp only [Cfg.isSep, Bool.and_eq_true, decide_eq_true_eq] at this
   exact this.2
 
+/-- the radix condition in checkable form: a digit-seeking exponent predicate needs `mantissa_radix ≤ exponent_radix` -/
+theorem expRadixOK_of (c : Cfg) (hexp : digitLookB c .exponent = true → c.mantissaRadix ≤ c.exponentRadix) :
+    ExpRadixOK c :=
+  fun hd x hx => isDigit_charToDigit c x _ hx (hexp (digitLookB_of c _ hd))
+
 /-- `SepCfg` from one-byte facts -/
 theorem sepCfg_of (c : Cfg) (o : POpts) (hrel : Rel c) (hfmt : c.feats.format = true) (hsep : c.digitSeparator ≠ 0)
     (hrad : c.feats.powerOfTwo = false → c.mantissaRadix ≤ 10) (hr : 1 ≤ c.mantissaRadix)
     (hsm : charToDigit c.digitSeparator c.mantissaRadix = none)
     (hse : charToDigit c.digitSeparator c.exponentRadix = none)
-    (hexp : digitLookB c .exponent = true → c.mantissaRadix ≤ c.exponentRadix)
     (hdp : o.dp ≠ c.digitSeparator)
     (hexpc : matchByte o.exp (c.caseSensitiveExponent && c.feats.format) (some c.digitSeparator) = false)
     (hsuf : matchByte c.baseSuffix c.caseSensitiveBaseSuffix (some c.digitSeparator) = false)
@@ -88,7 +92,6 @@ theorem sepCfg_of (c : Cfg) (o : POpts) (hrel : Rel c) (hfmt : c.feats.format = 
   sepM := fun x hx => by rw [isSep_eq c x hx]; exact hsm
   sepE := fun x hx => by rw [isSep_eq c x hx]; exact hse
   digM := fun x hx => isDigit_charToDigit c x _ hx (Nat.le_refl _)
-  digE := fun hd x hx => isDigit_charToDigit c x _ hx (hexp (digitLookB_of c _ hd))
   dpSep := by
     cases h : c.isSep o.dp with
     | false => rfl
@@ -163,14 +166,13 @@ theorem validRadix_facts (feats : Features) (r : Nat) (hfeat : feats.radix = tru
       exact ⟨by omega, fun _ => by omega⟩
 
 /-- **`SepCfg` for a validated call** (`parse_partial_with_options` accepted format and options): beyond validity only
-(1) a separator byte, (2) the radix condition for digit-seeking exponent predicates, (3) the separator is not the
-other ASCII case of the exponent / base-prefix / base-suffix character -/
+(1) a separator byte, (2) the separator is not the other ASCII case of the exponent / base-prefix / base-suffix
+character -/
 theorem sepCfg_of_valid (feats : Features) (fmt : Format) (o : POpts)
     (hfeat : feats.radix = true → feats.powerOfTwo = true) (hf : feats.format = true)
     (h1 : optionsError o = none) (h2 : formatError feats fmt = none)
     (h3 : isValidOptionsPunctuation feats fmt o.exp o.dp = true)
     (hsep : fmt.digitSeparator ≠ 0)
-    (hexp : digitLookB ⟨feats, fmt, false⟩ .exponent = true → fmt.mantissaRadix ≤ fmt.exponentRadix)
     (hexpc : matchByte o.exp ((⟨feats, fmt, false⟩ : Cfg).caseSensitiveExponent && feats.format)
       (some fmt.digitSeparator) = false)
     (hsuf : matchByte (⟨feats, fmt, false⟩ : Cfg).baseSuffix (⟨feats, fmt, false⟩ : Cfg).caseSensitiveBaseSuffix
@@ -219,7 +221,7 @@ theorem sepCfg_of_valid (feats : Features) (fmt : Format) (o : POpts)
           exact charToDigit_none_mono _ _ _ hdpb (by split <;> omega) hdpc.2.1.1.1
         exact sepCfg_of ⟨feats, fmt, false⟩ o hrel hf (by simpa [Cfg.digitSeparator, hf] using hsep) hrad
           hr1 (by simpa [Cfg.digitSeparator, Cfg.mantissaRadix, hf] using hsm)
-          (by simpa [Cfg.digitSeparator, Cfg.exponentRadix, hf] using hse) hexp (by simpa [Cfg.digitSeparator, hf] using hdpne)
+          (by simpa [Cfg.digitSeparator, Cfg.exponentRadix, hf] using hse) (by simpa [Cfg.digitSeparator, hf] using hdpne)
           (by simpa [Cfg.digitSeparator, hf] using hexpc) (by simpa [Cfg.digitSeparator, hf] using hsuf)
           (by simpa [Cfg.digitSeparator, hf] using hpre) hdpd
 
